@@ -12,6 +12,7 @@ CONSTANTS
   Reconnect = TRUE
   MaxAttempts = 2
   FixExitOrder = FALSE
+  FixReadErr = TRUE
   FixStaleDelete = TRUE
 INVARIANT OwnResult
 INVARIANT MailboxOwn
